@@ -218,6 +218,36 @@ func V4Packet(maxOpts, maxVal int) *rapid.Generator[V4Case] {
 		c.File = noNUL(Fill(t, fl, "file"))
 		n := rapid.IntRange(0, maxOpts).Draw(t, "nopts")
 		used := map[uint8]bool{}
+		// RFC-shaped values of well-known options (hostile constants: code paths that key on a code AND a shape)
+		if rapid.IntRange(0, 3).Draw(t, "special") == 0 {
+			type sp struct {
+				code uint8
+				val  []byte
+			}
+			mac := Fill(t, 6, "spmac")
+			pick := rapid.SampledFrom([]sp{
+				{52, []byte{1}}, {52, []byte{2}}, {52, []byte{3}}, {52, []byte{4}}, // option overload
+				{61, append([]byte{c.HType}, mac...)}, {61, append([]byte{1}, mac...)}, // client identifier: htype + address
+				{97, append([]byte{0}, Fill(t, 16, "guid")...)}, // PXE client machine identifier (type 0 + GUID)
+				{93, []byte{0, 7}}, {94, []byte{1, 3, 16}}, // PXE architecture / NII
+				{55, []byte{1, 3, 6, 15, 3}}, {53, []byte{byte(rapid.IntRange(0, 9).Draw(t, "mt"))}},
+				{82, []byte{1, 2, 0xaa, 0xbb, 2, 1, 0xcc}}, {121, []byte{24, 10, 1, 2, 10, 0, 0, 1}}, {119, []byte{3, 'f', 'o', 'o', 0, 0xc0, 0}},
+				{124, []byte{0, 0, 0, 9, 3, 'a', 'b', 'c'}}, {77, []byte{2, 'x', 'y'}}, {116, []byte{1}}, {57, []byte{5, 220}},
+			}).Draw(t, "sp")
+			if !used[pick.code] {
+				used[pick.code] = true
+				c.Opts = append(c.Opts, V4Opt{Code: pick.code, Val: pick.val})
+			}
+			switch rapid.IntRange(0, 4).Draw(t, "spname") {
+			case 0: // names that happen to be well-formed option lists (option overload, RFC 2131 section 4.1)
+				c.SName = []byte("\xff")
+				c.File = []byte("B\x0410.0\xff")
+			case 1:
+				c.File = []byte("\xff")
+			case 2:
+				c.CHAddr = []byte{} // no hardware address, identity only in option 61
+			}
+		}
 		for i := 0; i < n; i++ {
 			var code uint8
 			if rapid.IntRange(0, 2).Draw(t, "codeclass") == 0 {
